@@ -317,6 +317,13 @@ def chuck_StoppingCommand(ebp, line):
         raise ProcessorError(args[1])
 
 
+def _dquote_escape(val):
+    """Escape the characters that stay special inside a bash double-quoted string."""
+    for char in ("\\", '"', "$", "`"):
+        val = val.replace(char, "\\" + char)
+    return val
+
+
 class EbuildProcessor:
     """Abstraction of a running ebd instance.
 
@@ -748,6 +755,10 @@ class EbuildProcessor:
         # which isn't always true.
         self.pid = None
 
+    def _byte_len(self, data):
+        """Size of a string as the daemon counts it: bytes on the wire (read -N in the C locale)."""
+        return len(data.encode(self.ebd_write.encoding or "utf-8"))
+
     def _generate_env_str(self, env_dict):
         env_dict = dict(env_dict)
         # EAPI 9+ marks variables that must be set but not exported (see PMS);
@@ -769,13 +780,15 @@ class EbuildProcessor:
                 )
 
             if isinstance(val, (list, tuple)):
-                assign = f"{key}=({' '.join(f'[{i}]="{value}"' for i, value in enumerate(val))})"
+                assign = f"{key}=({' '.join(f'[{i}]="{_dquote_escape(value)}"' for i, value in enumerate(val))})"
             elif val.isalnum():
                 assign = f"{key}={val}"
             elif "'" not in val:
                 assign = f"{key}='{val}'"
             else:
-                assign = f"{key}=$'{val.replace("'", "\\'")}'"
+                # $'...' interprets backslash escapes, so literal backslashes
+                # have to be escaped as well as the quote
+                assign = f"{key}=$'{val.replace("\\", "\\\\").replace("'", "\\'")}'"
 
             (plain if key in nonexported else exported).append(assign)
 
@@ -806,7 +819,8 @@ class EbuildProcessor:
             self.write(f"start_receiving_env file {path}")
         else:
             self.write(
-                f"start_receiving_env bytes {len(data)}\n{data}", append_newline=False
+                f"start_receiving_env bytes {self._byte_len(data)}\n{data}",
+                append_newline=False,
             )
         os.umask(old_umask)
         return self.expect("env_received", async_req=async_req, flush=True)
@@ -839,7 +853,9 @@ class EbuildProcessor:
         # filter here, so that a screwy default doesn't result in resetting it
         # every time.
         data = os.pathsep.join(filter(None, paths))
-        self.write(f"set_metadata_path {len(data)}\n{data}", append_newline=False)
+        self.write(
+            f"set_metadata_path {self._byte_len(data)}\n{data}", append_newline=False
+        )
         if self.expect("metadata_path_received", flush=True):
             self._metadata_paths = paths
 
@@ -854,7 +870,7 @@ class EbuildProcessor:
 
         env = expected_ebuild_env(package_inst, env, depends=True)
         data = self._generate_env_str(env)
-        self.write(f"{command} {len(data)}\n{data}", append_newline=False)
+        self.write(f"{command} {self._byte_len(data)}\n{data}", append_newline=False)
 
         updates = None
         if self._eclass_caching:
